@@ -165,6 +165,9 @@ def run_property(pid, props_file, gen_cases, checks, rule, check_entry=None, mod
 def mk_replay(pid, checks, check_entry=None, model=True):
     def replay(path):
         run = Run(pid); ensure_driver(); bins = builds(run)
+        import json as _j
+        if _j.load(open(path)).get("concurrent"):
+            return conc_replay(pid, bins, path)
         holder = [None]
         checks2 = [c(holder) if getattr(c, "__name__", "") in ("chk_singleton_law", "chk_model_verdict") else c for c in checks]
         d = Differential(run, bins, (lambda c: "causal_model_entry") if model else None, None,
@@ -173,3 +176,69 @@ def mk_replay(pid, checks, check_entry=None, model=True):
         holder[0] = d
         return generic_replay(d, path)
     return replay
+
+
+def conc_phase(run, d, bins, cases, pid=None):
+    """CONCURRENT reasoning calls over one shared model (reasoning methods take &self): two threads repeat reason calls with different
+    data at the same time (harness family causalconc). A verdict is a function of model and data only (the model's calls are pure
+    in the verdict: theorem C12 history independence), so every verdict of either thread must be the model's verdict for that
+    thread's data - whatever the interleaving. Stress, not exhaustive: the schedule is the OS's."""
+    pid = pid or run.prop
+    from causalcheck import parse_tree, parse_calls, split_out
+    graphs = [c for c in cases if c.prefix and c.prefix[0] == 2 and c.ops]
+    graphs = graphs[: (60 if run.thorough else 14)]
+    rounds_k = 300 if run.thorough else 150
+    def toggle(o):
+        return o - 1 if o % 10 == 1 else (o + 1 if o % 10 == 0 else o)
+    singles = []; lines = []; meta = []
+    for c in graphs:
+        a = c.ints(); top, p = parse_tree(a, 0); calls = parse_calls(a, p)
+        c0 = calls[0]
+        data_a = list(c0["data"]); data_b = [toggle(o) for o in data_a]
+        ca = call(0, 0, 0, c0["idx"], data_a); cb = call(0, 0, 0, c0["idx"], data_b)
+        singles.append(Case("causal", c.prefix, [ca], {"cont": 1})); singles.append(Case("causal", c.prefix, [cb], {"cont": 1}))
+        cc = call(0, rounds_k, 0, c0["idx"], data_a)
+        lines.append("causalconc " + fmt(list(c.prefix) + cc)); meta.append(c)
+    if not lines:
+        return
+    dl = [sc.line("causal_model_entry") for sc in singles]
+    mout = driver_eval(dl)
+    want = []
+    for sc, mo in zip(singles, mout):
+        a1 = sc.ints(); top1, p1 = parse_tree(a1, 0); calls1 = parse_calls(a1, p1)
+        seg = split_out([int(t) for t in mo.split()], calls1)
+        want.append(seg[0]["res"] if seg else None)
+    rc, outs, err = run_lines(bins["release"], lines, line_timeout=120)
+    n_ok = 0; total_calls = 0
+    for k, (ln, c) in enumerate(zip(lines, meta)):
+        o = outs[k] if k < len(outs) else "<no answer>"
+        wa, wb = want[2 * k], want[2 * k + 1]
+        run.cov["evaluations"] += 1
+        try:
+            got = [int(x) for x in o.split()]
+        except ValueError:
+            got = None
+        total_calls += 2 * rounds_k * 1000
+        if got is not None and len(got) == 4 and got[0] == wa and got[1] == wb and got[2] == 0 and got[3] == 0:
+            n_ok += 1; continue
+        why = (f"two threads reasoning at the same time over one shared model: thread A (data as given) first verdict {got[0] if got else o}, model {wa}; thread B (every verdict toggled) first verdict "
+               f"{got[1] if got else '?'}, model {wb}; later calls with a verdict different from the thread's first one: A {got[2] if got else '?'}, B {got[3] if got else '?'} "
+               f"(1 true, 0 false, -1 error). A verdict must depend on model and data only")
+        run.violation({"kind": "property-oracle-failed-on-implementation", "why": why, "harness_line": ln, "concurrent": True, "want": [wa, wb],
+                       "case": c.to_json(), "rerun": f"cd /verif && python3 bin/check.py {pid} --replay <this file>",
+                       "note": "the interleaving is chosen by the OS scheduler: the replay repeats the stress run and reports whether the discrepancy shows again"})
+        break
+    run.cov["concurrent_reasoning"] = {"models": len(lines), "agree": n_ok, "reasoning_calls": total_calls, "threads": 2}
+
+
+def conc_replay(pid, bins, path):
+    import json
+    dj = json.load(open(path))
+    bad = False
+    for attempt in range(5):
+        rc, outs, err = run_lines(bins["release"], [dj["harness_line"]], line_timeout=120)
+        got = [int(x) for x in outs[0].split()] if outs else None
+        print("attempt", attempt, "got", got, "want", dj["want"] + [0, 0])
+        if got != dj["want"] + [0, 0]: bad = True; break
+    print("REPRODUCED" if bad else "not reproduced")
+    return 1 if bad else 0
